@@ -41,6 +41,10 @@ def run_unit(unit, snapshot, workdir, tier):
     res["trusted"] = sorted(set(res["trusted"]))
     hs = kani_be.parse_harnesses(text)
     kani_be.collect_obs(text, hs)
+    if kani_be.name_collisions(hs):
+        res["status"] = "undecided"
+        res["reason"] = "harness names collide under Kani's substring filter: %r" % (kani_be.name_collisions(hs)[:2],)
+        return res
     sel = {}
     for h, info in hs.items():
         tiers = re.search(r"//\s*@tier\s+(\w+)", info["pre"])
